@@ -325,7 +325,7 @@ func (c *stickyComp) Gen(rng *rand.Rand, idx int, tier string, targeted bool) hl
 					continue // one AES key is never used by two leaves of a chain (with and without TTL)
 				}
 				usedKeys[k] = true
-				ttl := hlib.Pick(rng, 0, 2e9, 5e9, 1500e6, 60e9)
+				ttl := hlib.Pick(rng, 0, 2e9, 5e9, 1500e6, 60e9, 631152000e9) // the last: 20 years, an expiry past January 2038
 				if targeted && rng.Intn(2) == 0 {
 					ttl = hlib.Pick(rng, 2e9, 1500e6, 5e9)
 				}
